@@ -474,7 +474,7 @@ class P:
             return s
         self.expect_kw('SELECT')
         node = {'kind': 'select', 'distinct': False, 'items': [], 'into': None, 'from': None, 'where': None, 'group': None,
-                'having': None, 'order': None, 'limit': None, 'offset': None, 'ctes': []}
+                'having': None, 'order': None, 'limit': None, 'offset': None, 'ctes': [], 'lock': None}
         while True:
             if self.accept_kw('DISTINCT'):
                 node['distinct'] = True
@@ -521,7 +521,7 @@ class P:
                     node['offset'] = self.expr()
         if self.accept_kw('INTO'):
             node['into'] = self.into_list()
-        self.locking_clauses()
+        node['lock'] = self.locking_clauses()
         if self.accept_kw('INTO'):
             node['into'] = self.into_list()
         return node
@@ -534,8 +534,12 @@ class P:
         return self.ident().lower()
 
     def locking_clauses(self):
+        """-> 'X' (FOR UPDATE) | 'S' (FOR SHARE / LOCK IN SHARE MODE) | None; the strongest of several clauses.
+        The engine ignores the mode unless a transaction model (Database.txmodel) is installed."""
+        mode = None
         while True:
             if self.is_kw('FOR') and self.kw_at(1, 'UPDATE', 'SHARE'):
+                mode = 'X' if (self.kw_at(1, 'UPDATE') or mode == 'X') else 'S'
                 self.i += 2
                 if self.accept_kw('OF'):
                     self.ident()
@@ -546,8 +550,9 @@ class P:
                 self.i += 2
                 self.expect_kw('SHARE')
                 self.expect_kw('MODE')
+                mode = mode or 'S'
             else:
-                return
+                return mode
 
     def into_list(self):
         out = []
